@@ -124,6 +124,10 @@ func (wg *WeightedAuthorizationModelGraph) HasEdge(fromNode, toNode *WeightedAut
 
 // AssignWeights assigns weights to all the edges and nodes of the graph.
 func (wg *WeightedAuthorizationModelGraph) AssignWeights() error {
+	if wg.hasRewriteOnlyCycle() {
+		return ErrModelCycle
+	}
+
 	visited := make(map[string]bool)
 	ancestorPath := make([]*WeightedAuthorizationModelEdge, 0)
 	tupleCycleDependencies := make(map[string][]*WeightedAuthorizationModelEdge)
@@ -142,6 +146,53 @@ func (wg *WeightedAuthorizationModelGraph) AssignWeights() error {
 		}
 	}
 	return nil
+}
+
+// hasRewriteOnlyCycle reports whether the graph contains a cycle that can be traversed without
+// consuming any tuple, i.e. a cycle made only of rewrite and computed edges. Such a cycle makes the
+// model invalid whatever else it contains, and the depth first traversal below only notices it
+// for some of the orders in which it may visit the nodes.
+func (wg *WeightedAuthorizationModelGraph) hasRewriteOnlyCycle() bool {
+	const (
+		inProgress = 1
+		done       = 2
+	)
+
+	state := make(map[string]int, len(wg.nodes))
+
+	var visit func(nodeID string) bool
+	visit = func(nodeID string) bool {
+		state[nodeID] = inProgress
+
+		for _, edge := range wg.edges[nodeID] {
+			if edge.edgeType == TTUEdge || edge.edgeType == DirectEdge {
+				continue
+			}
+
+			switch state[edge.to.uniqueLabel] {
+			case inProgress:
+				return true
+			case done:
+				continue
+			}
+
+			if visit(edge.to.uniqueLabel) {
+				return true
+			}
+		}
+
+		state[nodeID] = done
+
+		return false
+	}
+
+	for nodeID := range wg.nodes {
+		if state[nodeID] == 0 && visit(nodeID) {
+			return true
+		}
+	}
+
+	return false
 }
 
 func (wg *WeightedAuthorizationModelGraph) calculateEdgeWildcards(edge *WeightedAuthorizationModelEdge) {
